@@ -26,6 +26,7 @@ import Dashu.Proofs.NT.LehmerStepWords
 import Dashu.Proofs.NT.LehmerStepWordsGen
 import Dashu.Proofs.NT.LehmerStepCommitted
 import Dashu.Proofs.NT.LehmerStepCommittedFull
+import Dashu.Proofs.NT.LehmerCommitShapeFull
 /-
   C12 — gcd, integer roots, integer logarithms and `remove` satisfy their defining (in)equalities;
   the only panics are the documented ones.
@@ -1035,5 +1036,57 @@ example : val 64 [7, 2 ^ 63 + 11] ≤ val 64 ([12345, 999] ++ [1]) ∧ 1 < wordL
     lehmerCofactors 64 (val 64 [12345, 2 ^ 63 + 999]) (val 64 [7, 2 ^ 62 + 2 ^ 61 + 11]) = (3, 4, 2, 3) ∧
     lehmerStepFull 64 3 4 2 3 [12345, 2 ^ 63 + 999] [7, 2 ^ 62 + 2 ^ 61 + 11]
       = some ([37007, 2953], [18446744073709526947, 2305843009213691986]) := by decide +kernel
+
+-- ==================================================================== which slices lehmer_step is handed (Round 8)
+
+/-- **`y` two or more words shorter than `x`: the guess never commits.**  For `y ≤ x` whose significant word counts
+    differ by two or more, `lehmer_guess` / `lehmer_guess_dword` on the aligned leading parts
+    (`highest_word_normalized` / `highest_dword_normalized`: both operands cut at one common bit position) return
+    `(1, 0, 0, 1)` — the aligned part of `y` is 0, or the first quotient is at least `2^W > COEFF_LIMIT` — so
+    `gcd_in_place` / `gcd_ext_in_place` take the Euclidean arm (`b == 0`). -/
+theorem lehmer_guess_gap_fails (W x y : Nat) (hW : 0 < W) (hxy : y ≤ x) (hgap : wordLen W y + 2 ≤ wordLen W x) :
+    lehmerCofactors W x y = (1, 0, 0, 1) :=
+  lehmerCofactors_gap W x y hW hxy hgap
+
+/-- **a committed guess (`b ≠ 0`) happens only on operands of equal length or with `x` one word longer** — the first
+    `debug_assert!` of `lehmer_step` (`x.len() - y.len()` is 0 or 1 on the trimmed slices) follows from the guess the
+    loop has just computed from the same operands. -/
+theorem lehmer_commit_shape (W x y : Nat) (hW : 0 < W) (hxy : y ≤ x)
+    (hb : (lehmerCofactors W x y).2.1 ≠ 0) :
+    wordLen W y ≤ wordLen W x ∧ wordLen W x ≤ wordLen W y + 1 :=
+  lehmerCofactors_commit_shape W x y hW hxy hb
+
+/-- **`lehmer_step` in full on the slices `gcd_in_place` hands it — no shape hypothesis left.**  For TRIMMED word slices
+    `x = xl ++ [x_top]`, `y = yl ++ [y_top]` (non-zero top words: what `trim_leading_zeros` leaves), `Y ≤ X`, `y` of more
+    than one word and the committed guess `cf` (`b ≠ 0`) computed from the operands themselves: the lengths differ by 0
+    or 1 (the function's first `debug_assert!`), and the mirrored function (zip loop, `x_top` fix-up, both
+    `debug_assert_eq!`s as failures) returns `a·X − b·Y`, `d·Y − c·X` exactly, in place; both positive, sum `≤ X`,
+    new `y ≤ Y`. -/
+theorem lehmer_step_full_committed_trimmed (W : Nat) (hW : 2 ≤ W) (xl : List Nat) (xt : Nat) (yl : List Nat) (yt : Nat)
+    (hx : IsWords W xl) (hxt : xt < 2 ^ W) (hxt0 : xt ≠ 0) (hy : IsWords W yl) (hyt : yt < 2 ^ W) (hyt0 : yt ≠ 0)
+    (hxy : val W (yl ++ [yt]) ≤ val W (xl ++ [xt])) (hlen : 1 ≤ yl.length)
+    (cf : Nat × Nat × Nat × Nat) (hcf : cf = lehmerCofactors W (val W (xl ++ [xt])) (val W (yl ++ [yt])))
+    (hb : cf.2.1 ≠ 0) :
+    (xl.length = yl.length ∨ xl.length = yl.length + 1) ∧
+    ∃ x' y', lehmerStepFull W cf.1 cf.2.1 cf.2.2.1 cf.2.2.2 (xl ++ [xt]) (yl ++ [yt]) = some (x', y') ∧
+      x'.length = xl.length + 1 ∧ y'.length = yl.length + 1 ∧ IsWords W x' ∧ IsWords W y' ∧
+      (val W x' : Int) = (cf.1 : Int) * val W (xl ++ [xt]) - (cf.2.1 : Int) * val W (yl ++ [yt]) ∧
+      (val W y' : Int) = (cf.2.2.2 : Int) * val W (yl ++ [yt]) - (cf.2.2.1 : Int) * val W (xl ++ [xt]) ∧
+      0 < val W x' ∧ 0 < val W y' ∧ val W x' + val W y' ≤ val W (xl ++ [xt]) ∧ val W y' ≤ val W (yl ++ [yt]) :=
+  lehmerStepFull_committed_trimmed W hW xl xt yl yt hx hxt hxt0 hy hyt hyt0 hxy hlen cf hcf hb
+
+/-- non-vacuity: a gap of two words (`x` of 4 words over a `y` of 2 words, twice) gives `(1, 0, 0, 1)`; both committed
+    shapes occur with trimmed slices
+    (`[12345, 999] ++ [1]` over `[7] ++ [2^63 + 11]` commits `(1, 2, 0, 1)`; equal lengths commit `(3, 4, 2, 3)`) -/
+example : wordLen 64 (val 64 [5, 6]) + 2 ≤ wordLen 64 (val 64 [1, 2, 3, 4]) ∧ val 64 [5, 6] ≤ val 64 [1, 2, 3, 4] ∧
+    lehmerCofactors 64 (val 64 [1, 2, 3, 4]) (val 64 [5, 6]) = (1, 0, 0, 1) ∧
+    wordLen 64 (val 64 [0, 2 ^ 63]) + 2 ≤ wordLen 64 (val 64 [1, 2, 3, 1]) ∧
+    lehmerCofactors 64 (val 64 [1, 2, 3, 1]) (val 64 [0, 2 ^ 63]) = (1, 0, 0, 1) ∧
+    IsWords 64 [12345, 999] ∧ (1 : Nat) < 2 ^ 64 ∧ (1 : Nat) ≠ 0 ∧ IsWords 64 [7] ∧ 2 ^ 63 + 11 < 2 ^ 64 ∧ 2 ^ 63 + 11 ≠ 0 ∧
+    val 64 ([7] ++ [2 ^ 63 + 11]) ≤ val 64 ([12345, 999] ++ [1]) ∧ 1 ≤ [7].length ∧
+    (lehmerCofactors 64 (val 64 ([12345, 999] ++ [1])) (val 64 ([7] ++ [2 ^ 63 + 11]))).2.1 ≠ 0 ∧
+    [12345, 999].length = [7].length + 1 ∧
+    (lehmerCofactors 64 (val 64 ([12345] ++ [2 ^ 63 + 999])) (val 64 ([7] ++ [2 ^ 62 + 2 ^ 61 + 11]))).2.1 ≠ 0 ∧
+    [12345].length = [7].length := by decide +kernel
 
 end Dashu.Props.C12
